@@ -23,7 +23,7 @@ type c13Dec struct {
 
 func runC13(r *core.Run) {
 	r.Level = "exploration"
-	r.Rule = "encoders: every byte string of length 0..2 (thorough: 0..3), every length 0..64 x 3 fills, limit sizes; decoders: every string of length <=2 over all 256 byte values, a valid block with every byte value substituted at every position, all strings of length <=8 over {a,b,=} / {A,B,=} and <=6 over {a,=,LF}, limit sizes. non-trivial = distinct inputs whose library result was compared against the bit-level reference codec (accepted encodes; decodes where the reference verdict is Accept or Reject)"
+	r.Rule = "encoders: every byte string of length 0..2 (thorough: 0..3), every length 0..64 x 3 fills, limit sizes; decoders: every string of length <=2 over all 256 byte values, a valid block with every byte value substituted at every position, all strings of length <=8 over {a,b,=} / {A,B,=} and <=6 over {a,=,LF}, limit sizes; the canonical encoding of every length 1..2100 (thorough 8200) alone and followed by further quanta after its padding. non-trivial = distinct inputs whose library result was compared against the bit-level reference codec (accepted encodes; decodes where the reference verdict is Accept or Reject)"
 	r.Assume("reference: bit-level base32/base64 in refmodel/base.go; inputs that differ from a canonical encoding only by non-zero trailing bits, alphabet text after completed padding, or an unpadded final group that cannot hold a whole byte are Unspecified (standard lenient decoders accept some of them): only value agreement is demanded there")
 	bad := func(clause, fn, format string, a ...any) {
 		d := fmt.Sprintf(format, a...)
@@ -287,6 +287,34 @@ func runC13(r *core.Run) {
 	walk("a=\n", 6)
 	walk("A=\r", 6)
 	walk("a7~", 4)
+	// length-dependent behaviour (internal block sizes, stack buffers, stream decoders): the canonical
+	// encoding of EVERY length up to maxN, alone and followed by further quanta after its padding
+	maxN := 2100
+	if !r.Quick() {
+		maxN = 8200
+	}
+	core.ParallelFor(maxN, func(_, i int) {
+		n := i + 1
+		x := make([]byte, n)
+		for k := range x {
+			x[k] = byte(k*131 + n)
+		}
+		checkEnc(x, n%64 == 0)
+		e64, e32, e32n := refmodel.B64Encode(x), refmodel.B32Encode(x, true), refmodel.B32Encode(x, false)
+		checkDec(e64)
+		checkDec(e32)
+		checkDec(e32n)
+		if n%3 != 0 {
+			checkDec(e64 + "QQ==")
+			checkDec(e64 + "dGFpbCE=")
+			checkDec(e64 + e64)
+		}
+		if n%5 != 0 {
+			checkDec(e32 + "ae======")
+			checkDec(e32 + "aebagbaf")
+		}
+	})
+	r.Note("every_length_up_to", maxN)
 	r.Sample(map[string]any{"fn": "base32.EncodeToString", "input": "00ff", "output": refmodel.B32Encode([]byte{0, 0xff}, true)})
 	r.Sample(map[string]any{"fn": "base32.DecodeString", "input": "aa=====a", "reference": "reject"})
 	r.Sample(map[string]any{"fn": "base64.DecodeString", "input": "AQ=\n=", "reference": "accept 01"})
